@@ -208,6 +208,15 @@ def lockFile (o : Opts) (st : St) (repo : Repo) : List (List PkgRef) → Option 
     | some l, some r => some (l ++ r)
     | _, _ => none
 
+/-- class F09k: the run uses a package cache, and for some locked package the disk entry it hits was made from a file
+with the same control section but another signature section than the file at the URL now (no memo entry in the way) -/
+def staleSignature (o : Opts) (st : St) (repo : Repo) (ps : List PkgRef) : Bool :=
+  o.cache = .on && ps.any fun p =>
+    (memoHit st p).isNone &&
+    match diskHit st p, repo p.url with
+    | some e, some s => e.sigFile != (diskEntryOf s).sigFile
+    | _, _ => false
+
 /-! ### building from a lock -/
 
 structure Installed where
